@@ -45,11 +45,18 @@ def main():
             shutil.rmtree(os.path.join(wt, "SEED"), ignore_errors=True)
             shutil.copytree(sd, dst)
             res = {"seed": s, "repo_head": head, "date": time.strftime("%Y-%m-%d %H:%M")}
-            res["clean_demo_rc"], res["clean_demo_s"] = sh("sh SEED/%s/demo/run.sh" % v, wt, log, 3000)
+            res["clean_demo_rc"], res["clean_demo_s"] = sh("bash SEED/%s/demo/run.sh" % v, wt, log, 3000)
             rc = subprocess.run(["git", "apply", os.path.join(dst, "patch.diff")], cwd=wt, capture_output=True, text=True)
             res["apply_rc"] = rc.returncode
             if rc.returncode != 0:
                 res["apply_err"] = rc.stderr[-400:]
+            elif os.environ.get("DEMO_ONLY") and os.path.exists(os.path.join(sd, "confirm.json")):
+                old = json.load(open(os.path.join(sd, "confirm.json")))
+                for k in ("build_rc", "build_s", "tests_s", "tests_rc", "tests_failed", "tests_passed"):
+                    if k in old:
+                        res[k] = old[k]
+                res["note"] = "demo re-run with bash; build / test results from the first confirmation run on the same patch"
+                res["patched_demo_rc"], res["patched_demo_s"] = sh("bash SEED/%s/demo/run.sh" % v, wt, log, 3000)
             else:
                 res["build_rc"], res["build_s"] = sh("cargo build --offline --workspace -j 6", wt, log)
                 trc, res["tests_s"] = sh("cargo test --offline --workspace --no-fail-fast -j 6", wt, log)
@@ -57,7 +64,7 @@ def main():
                 failed = sorted(set(re.findall(r"^test (\S+) \.\.\. FAILED", txt, re.M)))
                 passed = len(re.findall(r"^test \S+ \.\.\. ok", txt, re.M))
                 res.update({"tests_rc": trc, "tests_failed": failed, "tests_passed": passed})
-                res["patched_demo_rc"], res["patched_demo_s"] = sh("sh SEED/%s/demo/run.sh" % v, wt, log, 3000)
+                res["patched_demo_rc"], res["patched_demo_s"] = sh("bash SEED/%s/demo/run.sh" % v, wt, log, 3000)
             res["confirmed"] = bool(res.get("clean_demo_rc") == 0 and res.get("apply_rc") == 0 and res.get("build_rc") == 0
                                     and not res.get("tests_failed") and res.get("tests_rc") == 0 and res.get("patched_demo_rc") not in (0, None, 124))
             json.dump(res, open(os.path.join(sd, "confirm.json"), "w"), indent=1)
